@@ -231,6 +231,12 @@ func c14Unmarshal(c *eng.Ctx, r *eng.Report) {
 						lenOK = true
 					}
 				}
+				// mirrored spelling: need <= len(m)
+				if m, isM := cd.Cmp(); isM && strings.Contains(eng.Desc(m.Y), "builtin:len(m)") && m.Op == token.LEQ {
+					if k, isK := eng.ConstInt(m.X); isK && k == spec.need {
+						lenOK = true
+					}
+				}
 				if strings.Contains(dd, ".IsOnCurve(") && cd.True {
 					curveOK = true
 				}
